@@ -21,6 +21,7 @@ From LV Require Model.LoaderExt Model.StreamFilt Spec.StreamCodecSpec Model.Png 
 From LV Require Proofs.LoadsLoopProofs Proofs.LoadsObjStmProofs Proofs.LoadsObjStmFile Proofs.LoadsObjStmWhole Proofs.LoadsFullProofs Proofs.LoaderExtProofs.
 From LV Require Proofs.LoadsMultiProofs Proofs.LoadsMultiFull Proofs.LoadsMultiExample Proofs.LoadsMultiXSec Proofs.LoadsMultiMixed Proofs.LoadsMultiMixedFull.
 From LV Require Proofs.LoadsMultiObjStm Proofs.LoadsMultiAll.
+From LV Require Proofs.LoadsMultiOSAt Proofs.LoadsMultiOSPasses Proofs.LoadsMultiOSInv Proofs.LoadsMultiOSAll Proofs.LoadsMultiOSFull.
 Local Open Scope N_scope.
 
 (* (1) Cross-reference streams.  For ALL field widths (0 = field absent, any positive width, not all three
@@ -1218,8 +1219,8 @@ Proof. exact LoadsLoopProofs.load_ext_frame_chain. Qed.
    (C02_loads_multi_partial_needs_domain below: the reference writer accepts a superseded definition of a MEMBER's number that no
    later part overrides).  Proved below: C02_loads_multi_table (every part a table), C02_loads_multi_mixed (every part a table or a
    cross-reference stream with any filter chain, mixed chains, Length references across parts; objects AND trailer) and
-   C02_loads_multi_objstm_partial (that, or one part with ANY object streams).  Missing (notes/C02.md, Round 6): object streams
-   in a file of two or more parts *)
+   C02_loads_multi_objstm_partial (that, or one part with ANY object streams), and C02_loads_multi_objstm (round 7): object
+   streams in ANY of the parts of a file of any number of parts, under the domain clause part_dom.  C02_full_all is the union *)
 Definition C02_loads_multi_partial : Prop :=
   forall (st : fstyle) (parts : list mpart) (a : adoc) (file : bytes),
     ref_write_multi st parts a = Some file ->
@@ -1403,8 +1404,8 @@ Qed.
    cross-reference streams of ALL parts.  Domain [C02_multi_domain_all]: C02_multi_domain (several parts, either format per
    part, no object streams) OR one part with C02_domain of the part's style (any object streams, any filter chain, deferred
    Length: everything of C02_full).
-   PARTIAL, what is missing: object streams in a file of TWO OR MORE parts (notes/C02.md, Round 6, lists the steps; the
-   writer-side closed form of one part with containers is LoadsMultiObjStm.write_parts_step_os). *)
+   PARTIAL in that object streams in a file of TWO OR MORE parts are outside this domain: they are C02_loads_multi_objstm
+   (round 7, below), and C02_full_all is the union. *)
 Theorem C02_multi_one_part_is_single :
   forall (st : fstyle) (p : mpart) (a : adoc) (file : bytes),
     mem_N 0 (mp_relist p) = false ->
@@ -1606,7 +1607,7 @@ Qed.
    ref_write_multi (C02_loads_multi_objstm_partial), loads to the version, exactly the objects (by value; the file-structure
    objects [S] of the style excepted) and the trailer its abstract document defines.  [C02_written file a S]: some style of the
    writer's space, inside the proved domain, produces [file] for [a].  PARTIAL only in the domain of the second disjunct
-   (C02_multi_domain_all: object streams in files of two or more parts are missing). *)
+   (C02_multi_domain_all: object streams in files of two or more parts are outside; C02_full_all below adds them). *)
 Definition C02_written (file : bytes) (a : adoc) (S : list N) : Prop :=
   (exists st, C02_domain st a /\ ref_write st a = Some file /\ S = structural_nums st) \/
   (exists st parts, C02_multi_domain_all st parts a file /\ ref_write_multi st parts a = Some file /\
@@ -1631,6 +1632,141 @@ Theorem C02_full_all_partial :
                            | _, _ => False
                            end).
 Proof. exact LoadsMultiAll.full_all. Qed.
+
+(* ---------------------------------------------------------------------------------------------
+   C02_loads_multi_objstm: FILES OF ref_write_multi WITH OBJECT STREAMS IN ANY OF THEIR PARTS -- any number of parts, any number
+   of them holding object-stream containers (such a part ends with a cross-reference stream: type-2 entries), tables or streams
+   for the others, superseded definitions, entries listed again (members included: a later stream part may list a type-2 entry
+   again), Length direct / a reference to a top-level integer of ANY part / a reference to a MEMBER of an object stream of ANY
+   part (the deferred path, across parts).  The conclusion is that of C02_full with the structural numbers of a file of several
+   parts (the containers and the cross-reference streams of all parts).
+   Proof (Proofs/LoadsMultiOSAt.v, LoadsMultiOSPasses.v, LoadsMultiOSInv.v, LoadsMultiOSAll.v, LoadsMultiOSFull.v): the invariant
+   of LoadsMultiMixed.v restated over the writer's step with containers (type-2 entries in the merged table; i_mem: every member
+   of a finished part's container is named by the type-2 entry of that container -- no later part overrides it), then the reader's
+   three passes on the merged table for ANY buffer (LoadsObjStmFile.GenFile without the single-section layout).
+   THE DOMAIN [C02_multi_domain_os]: C02_domain's clauses per object and per container (top_ok2 for the objects outside object
+   streams, cont_ok per container), the trailer clause and the u32 clause of C02_multi_domain, and LoadsMultiOSInv.parts_ok = per part,
+   at the values its layout has: part_ok as in C02_multi_domain (a TABLE part moreover lists no type-2 entry again: a table cannot
+   express one) and part_dom: A SUPERSEDED DEFINITION IS ONE OF A TOP-LEVEL OBJECT (without it the statement is false:
+   C02_loads_multi_partial_needs_domain); sx_win for the last part.
+   --------------------------------------------------------------------------------------------- *)
+Definition C02_multi_domain_os (st : fstyle) (parts : list mpart) (a : adoc) (file : bytes) : Prop :=
+  Utf.utf8_decode (a_version a) <> None /\ blen file <= u32_max /\
+  Forall (LoadsRefLenProofs.top_ok2 a) (LoadsMultiOSPasses.ptopsT a (s_ostms st) (find_istyle (s_objs st))) /\
+  Forall (LoadsObjStmFile.cont_ok a) (s_ostms st) /\
+  (dict_get (a_trailer a) RefWriter.K_Size = None /\ dict_get (a_trailer a) K_Prev = None /\
+   dict_get (a_trailer a) K_Encrypt = None /\ dict_get (a_trailer a) K_XRefStm = None /\
+   dict_get (a_trailer a) K_Index = None /\ dict_get (a_trailer a) K_Filter = None) /\
+  1 + max_num ((map LoadsTableProofs.top_num (LoadsMultiObjStm.multi_tops st a) ++ compressed_nums st) ++ part_xids parts) <= u32_max /\
+  LoadsMultiOSInv.parts_ok st a (LoadsMultiObjStm.multi_tops st a) LoadsFilterProofs.decompress_ref LoadsFilterProofs.can_ref
+    (part_xids parts) parts (blen (RefWriter.header st (a_version a))) None [] 0 /\
+  match parts with
+  | p :: _ => 25 < LoadsMultiOSInv.p_xpos st a (LoadsMultiObjStm.multi_tops st a) p (blen (RefWriter.header st (a_version a)))
+  | [] => True
+  end.
+
+Theorem C02_loads_multi_objstm :
+  forall (st : fstyle) (parts : list mpart) (a : adoc) (file : bytes),
+    C02_multi_domain_os st parts a file -> ref_write_multi st parts a = Some file ->
+    exists d t, LoaderExt.load_ext LoadsFilterProofs.decompress_ref LoadsFilterProofs.can_ref file = LOk d t /\
+                d_version d = a_version a /\
+                (forall id, In (fst id) (map os_id (s_ostms st) ++ part_xids parts) \/
+                            match lookup (d_objects d) id, lookup (content a) id with
+                            | Some o, Some o' => same_value o' o
+                            | None, None => True
+                            | _, _ => False
+                            end) /\
+                (forall k, In k [bs "Type"; bs "W"; bs "Index"; bs "Length"; bs "Filter"; bs "DecodeParms"] \/
+                           match dict_get (d_trailer d) k, dict_get (a_trailer a ++ [(bs "Size", OInt (Z.of_N (1 + max_num
+                                   (map (fun io => fst (fst io)) (a_objs a) ++ map os_id (s_ostms st) ++ part_xids parts))))]) k with
+                           | Some o, Some o' => same_value o' o
+                           | None, None => True
+                           | _, _ => False
+                           end).
+Proof. exact LoadsMultiOSFull.loads_multi_os_full. Qed.
+
+(* non-vacuity: the file of C02_example_multi_members_named -- TWO parts; part 1 = the object stream 20 (members 4, 7, 5; ASCII85
+   around Flate), stream 3 whose Length is the member 4, a SUPERSEDED definition of object 9, cross-reference stream 21 in
+   ASCIIHex; part 2 = the current object 9, cross-reference stream 22 that lists member 7 (a type-2 entry) and object 3 AGAIN --
+   is in the domain *)
+Theorem C02_example_loads_multi_os :
+  exists file, ref_write_multi ex_fstyle_os ex_parts_os2 ex_adoc_os = Some file /\
+               C02_multi_domain_os ex_fstyle_os ex_parts_os2 ex_adoc_os file.
+Proof.
+  destruct C02_example_loads_objstm as [_ [H1 [H2 _]]].
+  eexists. split; [vm_compute; reflexivity|].
+  split; [vm_compute; discriminate|]. split; [vm_compute; discriminate|].
+  split; [exact H1|]. split; [exact H2|]. split; [repeat split; reflexivity|].
+  split; [vm_compute; discriminate|]. split; [|vm_compute; reflexivity].
+  assert (Et : LoadsMultiObjStm.multi_tops ex_fstyle_os ex_adoc_os =
+               LoadsMultiOSPasses.ptopsT ex_adoc_os (s_ostms ex_fstyle_os) (find_istyle (s_objs ex_fstyle_os)) ++
+               LoadsObjStmWhole.contsof ex_fstyle_os ex_adoc_os) by (vm_compute; reflexivity).
+  cbn [LoadsMultiOSInv.parts_ok ex_parts_os2].
+  split; [|split; [|split; [intro K; discriminate K|split; [|split; [|split; [intros _; vm_compute; lia|exact I]]]]]].
+  - unfold LoadsMultiOSInv.part_ok. cbn [mp_xref]. split.
+    { right. split; [reflexivity|]. split; [reflexivity|]. split; [vm_compute; discriminate|reflexivity]. }
+    split; [left; reflexivity|].
+    match goal with |- spell_wf (ODict ?d) _ /\ _ =>
+      let v := eval vm_compute in d in assert (Hd : d = v) by (vm_compute; reflexivity); rewrite Hd end.
+    split.
+    + cbn.
+      repeat match goal with
+             | |- _ /\ _ => split
+             | |- NoDup _ => repeat (constructor; [cbn; intuition discriminate|]); constructor
+             | |- True => exact I
+             | |- _ = true => reflexivity
+             | |- _ <= _ => unfold u32_max, u16_max; lia
+             end.
+    + vm_compute. lia.
+  - intros no [<-|[]]. vm_compute. tauto.
+  - unfold LoadsMultiOSInv.part_ok. cbn [mp_xref]. split; [left; reflexivity|].
+    split; [right; left; reflexivity|].
+    match goal with |- spell_wf (ODict ?d) _ /\ _ =>
+      let v := eval vm_compute in d in assert (Hd : d = v) by (vm_compute; reflexivity); rewrite Hd end.
+    split.
+    + cbn.
+      repeat match goal with
+             | |- _ /\ _ => split
+             | |- NoDup _ => repeat (constructor; [cbn; intuition discriminate|]); constructor
+             | |- True => exact I
+             | |- _ = true => reflexivity
+             | |- _ <= _ => unfold u32_max, u16_max; lia
+             end.
+    + vm_compute. lia.
+  - intros no [].
+Qed.
+
+(* ---------------------------------------------------------------------------------------------
+   C02_full_all: THE UNION with C02_loads_multi_objstm -- every file the reference writer denotes, written by ref_write
+   (C02_domain) or by ref_write_multi (C02_multi_domain_all: no object streams or one part; C02_multi_domain_os: object streams
+   in any of the parts), loads to the version, exactly the objects (by value; the file-structure objects [S] of the style
+   excepted) and the trailer its abstract document defines.  What stays outside is what the domains exclude: the data model's
+   types, the two open findings' classes, and styles in which a superseded definition is one of a number that is a MEMBER of an
+   object stream (part_dom; C02_loads_multi_partial_needs_domain: there the file does not define the document). *)
+Definition C02_written_all (file : bytes) (a : adoc) (S : list N) : Prop :=
+  (exists st, C02_domain st a /\ ref_write st a = Some file /\ S = structural_nums st) \/
+  (exists st parts, (C02_multi_domain_all st parts a file \/ C02_multi_domain_os st parts a file) /\
+                    ref_write_multi st parts a = Some file /\ S = map os_id (s_ostms st) ++ part_xids parts).
+
+Theorem C02_full_all :
+  forall (file : bytes) (a : adoc) (S : list N),
+    C02_written_all file a S ->
+    exists d t, LoaderExt.load_ext LoadsFilterProofs.decompress_ref LoadsFilterProofs.can_ref file = LOk d t /\
+                d_version d = a_version a /\
+                (forall id, In (fst id) S \/
+                            match lookup (d_objects d) id, lookup (content a) id with
+                            | Some o, Some o' => same_value o' o
+                            | None, None => True
+                            | _, _ => False
+                            end) /\
+                (forall k, In k [bs "Type"; bs "W"; bs "Index"; bs "Length"; bs "Filter"; bs "DecodeParms"] \/
+                           match dict_get (d_trailer d) k, dict_get (a_trailer a ++ [(bs "Size", OInt (Z.of_N (1 + max_num
+                                   (map (fun io => fst (fst io)) (a_objs a) ++ S))))]) k with
+                           | Some o, Some o' => same_value o' o
+                           | None, None => True
+                           | _, _ => False
+                           end).
+Proof. exact LoadsMultiOSFull.full_all2. Qed.
 
 (* ---------- non-vacuity ---------- *)
 Definition ex_secs : xsections := [(0, [SFree 0 65535; SInUse 17 0]); (5, [SComp 3 1; SInUse 70000 2])].
@@ -1769,6 +1905,9 @@ Print Assumptions C02_multi_defs_disjoint.
 Print Assumptions C02_multi_known_current_file.
 Print Assumptions C02_example_multi_members_named.
 Print Assumptions C02_full_all_partial.
+Print Assumptions C02_loads_multi_objstm.
+Print Assumptions C02_example_loads_multi_os.
+Print Assumptions C02_full_all.
 Print Assumptions C02_loads_multi_partial_needs_domain.
 Print Assumptions C02_example_loads_table.
 Print Assumptions C02_example_object.
